@@ -13,5 +13,5 @@ HARNESSES = [
          timeout=300, bounds="all NUL-terminated strings of <= 8 bytes"),
     dict(name="collapse.n11", src="C11/collapse.c", defines=["N=11"], unwind=14, units=U + ["collapse_path"],
          tier="thorough", timeout=1800, bounds="all NUL-terminated strings of <= 11 bytes"),
-    tail(3), l01(40), ext(0x01, 6), ext(0x02, 6), tail(4, timeout=1800, tier="thorough"), tail(5, timeout=3600, tier="thorough"),
+    tail(3), l01(40), l01(40, oom=True), ext(0x01, 6), ext(0x02, 6), tail(4, timeout=1800, tier="thorough"), tail(5, timeout=3600, tier="thorough"),
 ]
